@@ -91,7 +91,8 @@ func runC16(r *engine.Run) {
 	refLiveChange(r, "REF-livechange")
 	// the trie's readers call into the transaction cache (hit/miss counters, lookups) while
 	// they hold only the trie's read lock: the cache's own discipline is part of this property
-	checkGuards(r, "LOCK-statecache", exportedEntries(r, "LOCK-statecache", pkgSC, scOwners), scOwners, scGuards)
+	wsc := checkGuards(r, "LOCK-statecache", exportedEntries(r, "LOCK-statecache", pkgSC, scOwners), scOwners, scGuards)
+	lockOrder(r, "LOCK-order", wsc, 10, "statecache")
 	whoReadOnly(r, "WHO-readonly")
 }
 
